@@ -198,6 +198,192 @@ Proof.
       * right. right. exists c. tauto.
 Qed.
 
+(* ------------------------------------------------------------------ immoralities *)
+Lemma immoralities_spec g u v : wf_graph g -> NoDup (edges g) ->
+  ((In (u, v) (immoralities g) \/ In (v, u) (immoralities g)) <->
+   u <> v /\ ~ adj g u v /\ exists c, In (u, c) (edges g) /\ In (v, c) (edges g)).
+Proof.
+  intros Hw Hn. unfold immoralities. rewrite !in_flat_map. split.
+  - intros [[n [_ H]]|[n [_ H]]]; apply filter_In in H; destruct H as [H Hf]; simpl in Hf;
+      apply negb_true_iff, orb_false_iff in Hf; destruct Hf as [Hf1 Hf2];
+      pose proof (pairs_neq _ _ _ (parents_NoDup g n Hn) H) as Hne;
+      apply pairs_In in H; rewrite !In_parents in H; destruct H as [Ha Hb].
+    + split; [exact Hne|]. split.
+      * intros [He|He]; apply has_edge_In in He; congruence.
+      * exists n. tauto.
+    + split; [intros E; apply Hne; symmetry; exact E|]. split.
+      * intros [He|He]; apply has_edge_In in He; congruence.
+      * exists n. tauto.
+  - intros [Hne [Hna [c [H1 H2]]]].
+    assert (Hc : In c (nodes g)) by (destruct Hw as [_ He]; apply (He u c H1)).
+    assert (F1 : has_edge g u v = false).
+    { destruct (has_edge g u v) eqn:E; [|reflexivity]. exfalso. apply Hna. left. apply has_edge_In. exact E. }
+    assert (F2 : has_edge g v u = false).
+    { destruct (has_edge g v u) eqn:E; [|reflexivity]. exfalso. apply Hna. right. apply has_edge_In. exact E. }
+    destruct (pairs_complete u v (parents g c)) as [H|H];
+      [apply In_parents; exact H1|apply In_parents; exact H2|exact Hne| |].
+    + left. exists c. split; [exact Hc|]. apply filter_In. split; [exact H|]. simpl. rewrite F1, F2. reflexivity.
+    + right. exists c. split; [exact Hc|]. apply filter_In. split; [exact H|]. simpl. rewrite F1, F2. reflexivity.
+Qed.
+
+(* the two parents of a common child are d-connected as soon as the child (the collider) is observed:
+   the trail u -> c <- v is active given any Z that contains c *)
+Lemma common_child_dconnected g Z u v c :
+  In (u, c) (edges g) -> In (v, c) (edges g) -> In c Z -> dconnected g Z u v.
+Proof.
+  intros H1 H2 Hc. exists [u; c; v]. simpl. split; [|split; [reflexivity|split; [reflexivity|]]].
+  - split; [left; exact H1|]. split; [right; exact H2|exact I].
+  - split; [|exact I]. split.
+    + intros _. exists c. split; [exact Hc|apply dpath_refl].
+    + intros Hn. exfalso. apply Hn. split; assumption.
+Qed.
+
+(* every moral edge is a skeleton edge or an immorality, and conversely *)
+Lemma moral_is_skeleton_or_immorality g u v : wf_graph g -> acyclic g -> NoDup (edges g) ->
+  ((In (u, v) (moral_edges g) \/ In (v, u) (moral_edges g)) <->
+   adj g u v \/ In (u, v) (immoralities g) \/ In (v, u) (immoralities g)).
+Proof.
+  intros Hw Ha Hn. rewrite (moral_edges_spec g u v Hw Ha Hn), (immoralities_spec g u v Hw Hn). split.
+  - intros [Hne [H|[c Hc]]]; [left; exact H|].
+    destruct (has_edge g u v) eqn:E1; [left; left; apply has_edge_In; exact E1|].
+    destruct (has_edge g v u) eqn:E2; [left; right; apply has_edge_In; exact E2|].
+    right. split; [exact Hne|]. split; [|exists c; exact Hc].
+    intros [He|He]; apply has_edge_In in He; congruence.
+  - intros [H|[Hne [_ Hc]]].
+    + split; [|left; exact H]. intros ->. destruct H as [H|H]; exact (acyclic_no_self g v Ha H).
+    + split; [exact Hne|right; exact Hc].
+Qed.
+
+(* ------------------------------------------------------------------ edits: fewer edges, fewer active trails *)
+Lemma dpath_incl g g' u v : incl (edges g') (edges g) -> dpath g' u v -> dpath g u v.
+Proof.
+  intros Hi H. induction H as [u|u v w _ IH He]; [apply dpath_refl|].
+  eapply dpath_step; [exact IH|apply Hi; exact He].
+Qed.
+
+Lemma acyclic_incl g g' : acyclic g -> incl (edges g') (edges g) -> acyclic g'.
+Proof. intros Ha Hi u v He Hp. apply (Ha u v (Hi _ He)). eapply dpath_incl; eauto. Qed.
+
+Lemma adj_incl g g' a b : incl (edges g') (edges g) -> adj g' a b -> adj g a b.
+Proof. intros Hi [H|H]; [left|right]; apply Hi; exact H. Qed.
+
+Lemma is_trail_incl g g' : incl (edges g') (edges g) -> forall t, is_trail g' t -> is_trail g t.
+Proof.
+  intros Hi t. induction t as [|x r IH]; [simpl; tauto|].
+  destruct r as [|y r']; [simpl; tauto|].
+  intros [Ha Ht]. split; [eapply adj_incl; eauto|apply IH; exact Ht].
+Qed.
+
+Lemma ok_mid_incl g g' Z a b c : acyclic g -> incl (edges g') (edges g) ->
+  adj g' a b -> adj g' b c -> ok_mid g' Z a b c -> ok_mid g Z a b c.
+Proof.
+  intros Ha Hi Hab Hbc [H1 H2].
+  assert (Hcol : collider g a b c -> collider g' a b c).
+  { intros [E1 E2]. split.
+    - destruct Hab as [H|H]; [exact H|]. exfalso. exact (acyclic_no_2cycle g a b Ha E1 (Hi _ H)).
+    - destruct Hbc as [H|H]; [|exact H]. exfalso. exact (acyclic_no_2cycle g c b Ha E2 (Hi _ H)). }
+  split.
+  - intros Hc. destruct (H1 (Hcol Hc)) as [z [Hz Hp]]. exists z. split; [exact Hz|eapply dpath_incl; eauto].
+  - intros Hn. apply H2. intros [E1 E2]. apply Hn. split; apply Hi; assumption.
+Qed.
+
+Lemma active_incl g g' Z : acyclic g -> incl (edges g') (edges g) ->
+  forall t, is_trail g' t -> active g' Z t -> active g Z t.
+Proof.
+  intros Ha Hi t. induction t as [|a r IH]; [simpl; tauto|].
+  destruct r as [|b r1]; [simpl; tauto|].
+  destruct r1 as [|c r2]; [simpl; tauto|].
+  intros Ht Hact.
+  assert (Hab : adj g' a b) by (destruct Ht as [H _]; exact H).
+  assert (Ht1 : is_trail g' (b :: c :: r2)) by (destruct Ht as [_ H]; exact H).
+  assert (Hbc : adj g' b c) by (destruct Ht1 as [H _]; exact H).
+  destruct Hact as [Hm Hr]. split.
+  - eapply ok_mid_incl; eauto.
+  - apply IH; assumption.
+Qed.
+
+Lemma dconnected_incl g g' Z x y : acyclic g -> incl (edges g') (edges g) ->
+  dconnected g' Z x y -> dconnected g Z x y.
+Proof.
+  intros Ha Hi [t (Ht & Hh & Hl & Hact)]. exists t.
+  split; [eapply is_trail_incl; eauto|]. split; [exact Hh|]. split; [exact Hl|].
+  eapply active_incl; eauto.
+Qed.
+
+Lemma atn_incl g g' x Z y : wf_graph g -> wf_graph g' -> acyclic g -> incl (edges g') (edges g) ->
+  In x (nodes g) -> In x (nodes g') -> ~ In x Z ->
+  In y (active_trail_nodes g' x Z) -> In y (active_trail_nodes g x Z).
+Proof.
+  intros Hw Hw' Ha Hi Hx Hx' Hz H.
+  apply (reach_iff_active_trail g' x Z y Hw' (acyclic_incl g g' Ha Hi) Hx' Hz) in H.
+  apply (reach_iff_active_trail g x Z y Hw Ha Hx Hz).
+  destruct H as [H1 H2]. split; [exact H1|eapply dconnected_incl; eauto].
+Qed.
+
+(* ------------------------------------------------------------------ the removal edits *)
+Lemma remove_edges_In g es u v :
+  In (u, v) (edges (remove_edges g es)) <-> In (u, v) (edges g) /\ ~ In (u, v) es.
+Proof.
+  unfold remove_edges. simpl. rewrite filter_In, negb_true_iff. split.
+  - intros [H Hf]. split; [exact H|]. intros Hi.
+    assert (existsb (edge_eqb (u, v)) es = true)
+      by (apply existsb_exists; exists (u, v); split; [exact Hi|apply edge_eqb_eq; reflexivity]).
+    congruence.
+  - intros [H Hn]. split; [exact H|]. destruct (existsb (edge_eqb (u, v)) es) eqn:E; [|reflexivity].
+    exfalso. apply existsb_exists in E. destruct E as [e [He Hq]]. apply edge_eqb_eq in Hq. subst. exact (Hn He).
+Qed.
+
+Lemma do_graph_In g ns u v :
+  In (u, v) (edges (do_graph g ns)) <-> In (u, v) (edges g) /\ ~ In v ns.
+Proof. unfold do_graph. simpl. rewrite filter_In, negb_true_iff, memn_false. simpl. tauto. Qed.
+
+Lemma remove_node_edges_In g w u v :
+  In (u, v) (edges (remove_node g w)) <-> In (u, v) (edges g) /\ u <> w /\ v <> w.
+Proof.
+  unfold remove_node. simpl. rewrite filter_In, andb_true_iff, !negb_true_iff, !Nat.eqb_neq. simpl. tauto.
+Qed.
+
+Lemma remove_node_nodes_In g w n : In n (nodes (remove_node g w)) <-> In n (nodes g) /\ n <> w.
+Proof. unfold remove_node, remove1. simpl. rewrite filter_In, negb_true_iff, Nat.eqb_neq. tauto. Qed.
+
+Lemma wf_remove_edges g es : wf_graph g -> wf_graph (remove_edges g es).
+Proof.
+  intros [Hn He]. split; [exact Hn|]. intros u v H. apply remove_edges_In in H. apply He. tauto.
+Qed.
+Lemma wf_do_graph g ns : wf_graph g -> wf_graph (do_graph g ns).
+Proof.
+  intros [Hn He]. split; [exact Hn|]. intros u v H. apply do_graph_In in H. apply He. tauto.
+Qed.
+Lemma wf_remove_node g w : wf_graph g -> wf_graph (remove_node g w).
+Proof.
+  intros [Hn He]. split.
+  - unfold remove_node, remove1. simpl. apply NoDup_filter. exact Hn.
+  - intros u v H. apply remove_node_edges_In in H. destruct H as (H & Hu & Hv).
+    destruct (He u v H). rewrite !remove_node_nodes_In. tauto.
+Qed.
+
+Lemma do_graph_no_parents g ns x : In x ns -> parents (do_graph g ns) x = [].
+Proof.
+  intros Hx. destruct (parents (do_graph g ns) x) as [|p r] eqn:E; [reflexivity|].
+  exfalso. assert (H : In p (parents (do_graph g ns) x)) by (rewrite E; left; reflexivity).
+  apply In_parents, do_graph_In in H. tauto.
+Qed.
+
+Lemma removals_only_disconnect g x Z y : wf_graph g -> acyclic g -> In x (nodes g) -> ~ In x Z ->
+  (forall es, In y (active_trail_nodes (remove_edges g es) x Z) -> In y (active_trail_nodes g x Z)) /\
+  (forall ns, In y (active_trail_nodes (do_graph g ns) x Z) -> In y (active_trail_nodes g x Z)) /\
+  (forall w, w <> x -> In y (active_trail_nodes (remove_node g w) x Z) -> In y (active_trail_nodes g x Z)).
+Proof.
+  intros Hw Ha Hx Hz. split; [|split].
+  - intros es. apply atn_incl; auto using wf_remove_edges.
+    intros [u v] H. apply remove_edges_In in H. tauto.
+  - intros ns. apply atn_incl; auto using wf_do_graph.
+    intros [u v] H. apply do_graph_In in H. tauto.
+  - intros w Hne. apply atn_incl; auto using wf_remove_node.
+    + intros [u v] H. apply remove_node_edges_In in H. tauto.
+    + apply remove_node_nodes_In. split; [exact Hx|intros E; apply Hne; symmetry; exact E].
+Qed.
+
 (* ------------------------------------------------------------------ local Markov set *)
 Lemma nondesc_spec g v x : wf_graph g ->
   (In x (nondesc_minus_parents g v) <->
